@@ -57,7 +57,10 @@ def cached_template(
     # NOTE: The same template string does not always compile to the same Template - relative paths
     #       in `{% include %}` and `{% extends %}` are resolved against the template name of the origin.
     origin_template_name = origin.template_name if origin else None
-    cache_key = (template_cls_path, template_string, engine_cls_path, name, origin_template_name)
+    # NOTE: Two engines of the same class may be set up differently (builtins, libraries, `string_if_invalid`, ...),
+    #       so the compiled Template belongs to the engine instance, not to its class.
+    engine_id = id(engine) if engine else None
+    cache_key = (template_cls_path, template_string, engine_cls_path, engine_id, name, origin_template_name)
 
     maybe_cached_template: Optional[Template] = template_cache.get(cache_key)
     if maybe_cached_template is None:
